@@ -1,10 +1,14 @@
 package main
 
-// Two scenarios on a second probe package ("quirk") in which a coroutine jump
-// leaves or re-enters an io_limit / io_forget_history block. The compiler
-// accepts the program; the generated object breaks the I/O buffer contract.
-// See /verif/findings/C08/README.txt. The failures carry keys listed in
-// KNOWN_FINDINGS.txt (the check reports them as KNOWN-FINDING, not as a new violation).
+// Two scenarios in which a coroutine jump leaves or re-enters an io_limit /
+// io_forget_history block (findings/C08/README.txt): a `return` inside
+// io_forget_history(args.dst) and a suspension inside io_limit(args.src). Until
+// fixes/C08-check-io-block-escapes.patch the compiler accepted both programs and the
+// generated objects broke the I/O buffer contract; lang/check now rejects them. Each
+// program is offered to the working tree's compiler on its own (so that either rule of
+// the checker is exercised alone): if it is rejected there is nothing to run; if it is
+// accepted it is compiled and run, and the caller's buffer must satisfy the contract
+// afterwards (the keys are those of the former known findings, now `fixed:`).
 
 import (
 	"fmt"
@@ -18,7 +22,8 @@ import (
 	"wvh/hlib"
 )
 
-const quirkWuffs = `pub status "#quirk error"
+// the block contains nothing but the return: only the rule about rets applies
+const quirkForgetWuffs = `pub status "#quirk error"
 
 pub struct thing?(
         x : base.u32,
@@ -28,12 +33,17 @@ pub func thing.ret_in_forget?(dst: base.io_writer, c: base.u32) {
     args.dst.write_u8?(a: 0x11)
     args.dst.write_u8?(a: 0x22)
     io_forget_history (io: args.dst) {
-        args.dst.write_u8?(a: 0x33)
         if args.c == 1 {
             return "#quirk error"
         }
     }
 }
+`
+
+// the block contains a coroutine call that is not written `status =? …`
+const quirkLimitWuffs = `pub struct thing?(
+        x : base.u32,
+)
 
 pub func thing.susp_in_limit?(src: base.io_reader) {
     var b  : base.u8
@@ -48,7 +58,7 @@ pub func thing.susp_in_limit?(src: base.io_reader) {
 }
 `
 
-const quirkDriverC = `
+const quirkDriverHead = `
 #include <stdio.h>
 static void __attribute__((noinline)) paint(void) {
   volatile uint8_t buf[8192];
@@ -60,26 +70,38 @@ static void show(const char* tag, wuffs_base__status s, wuffs_base__io_buffer* b
   printf(" ptr_off=%ld len=%zu ri=%zu wi=%zu pos=%llu\n", (long)(b->data.ptr - mem), b->data.len, b->meta.ri, b->meta.wi,
          (unsigned long long)b->meta.pos);
 }
+`
+
+const quirkForgetMain = `
 int main(void) {
-  wuffs_quirk__thing t;
+  wuffs_quirkf__thing t;
   wuffs_base__status s;
-  s = wuffs_quirk__thing__initialize(&t, sizeof t, WUFFS_VERSION, 0);
+  s = wuffs_quirkf__thing__initialize(&t, sizeof t, WUFFS_VERSION, 0);
   uint8_t mem[16] = {1, 2, 3, 4, 5, 6, 7, 8, 9, 10, 11, 12, 13, 14, 15, 16};
   wuffs_base__io_buffer d = wuffs_base__ptr_u8__writer(mem, 16);
   d.meta.wi = 5;
   show("forget-before", s, &d, mem);
-  s = wuffs_quirk__thing__ret_in_forget(&t, &d, 1);
+  s = wuffs_quirkf__thing__ret_in_forget(&t, &d, 1);
   show("forget-after", s, &d, mem);
-  s = wuffs_quirk__thing__initialize(&t, sizeof t, WUFFS_VERSION, 0);
+  (void)paint;
+  return 0;
+}
+`
+
+const quirkLimitMain = `
+int main(void) {
+  wuffs_quirkl__thing t;
+  wuffs_base__status s;
+  s = wuffs_quirkl__thing__initialize(&t, sizeof t, WUFFS_VERSION, 0);
   uint8_t smem[8] = {7, 7, 7, 7, 7, 7, 7, 7};
   wuffs_base__io_buffer b = wuffs_base__ptr_u8__reader(smem, 8, false);
   b.meta.wi = 0;
-  s = wuffs_quirk__thing__susp_in_limit(&t, &b);
+  s = wuffs_quirkl__thing__susp_in_limit(&t, &b);
   show("limit-suspended", s, &b, smem);
   b.meta.wi = 3;
   show("limit-before-resume", s, &b, smem);
   paint();
-  s = wuffs_quirk__thing__susp_in_limit(&t, &b);
+  s = wuffs_quirkl__thing__susp_in_limit(&t, &b);
   show("limit-after-resume", s, &b, smem);
   return 0;
 }
@@ -90,59 +112,71 @@ var reShow = regexp.MustCompile(`^(\S+) status=(\S+) ptr_off=(-?\d+) len=(\d+) r
 func runQuirkScenarios(r *hlib.Run, binDir, snapshot, work string) {
 	dir := filepath.Join(work, "quirk")
 	os.MkdirAll(dir, 0o755)
-	wf := filepath.Join(dir, "quirk.wuffs")
-	os.WriteFile(wf, []byte(quirkWuffs), 0o644)
-	c, e, err := hlib.GenPkg(filepath.Join(binDir, "wuffs-c"), "quirk", wf)
-	if err != nil {
-		// the compiler now rejects jumps out of / into io blocks: the findings are gone
-		r.Count("quirk:program-rejected-by-the-compiler")
-		r.Note("quirk.wuffs rejected by the working tree's compiler: " + firstLine(string(e)))
-		return
-	}
-	gen := strings.Replace(string(c), "#include \"./wuffs-base.c\"", "", 1)
-	src := "#define WUFFS_IMPLEMENTATION\n#define WUFFS_CONFIG__MODULES\n#define WUFFS_CONFIG__MODULE__BASE__CORE\n#define WUFFS_CONFIG__MODULE__QUIRK\n" +
-		"#include \"" + snapshot + "\"\n" + gen + "\n" + quirkDriverC
-	cfile := filepath.Join(dir, "quirk_drv.c")
-	os.WriteFile(cfile, []byte(src), 0o644)
-	bin := filepath.Join(dir, "quirk_drv")
-	if err := hlib.CC("gcc", "-O0", "-w", "-o", bin, cfile); err != nil {
-		r.Count("quirk:driver-does-not-compile")
-		r.Note("quirk driver: " + firstLine(err.Error()))
-		return
-	}
-	o, _, err := hlib.RunCmd(60*time.Second, dir, nil, nil, bin)
-	out := string(o)
-	replay := "findings/C08/quirk.wuffs + findings/C08/quirk_driver.c (gcc -O0); output:\n" + out
-	if err != nil {
-		r.Fail("iocontract:quirk:driver-crashed", "the quirk scenarios crashed: "+err.Error(), replay)
-		return
-	}
 	vals := map[string][]int64{}
-	for _, l := range strings.Split(out, "\n") {
-		if m := reShow.FindStringSubmatch(strings.TrimSpace(l)); m != nil {
-			var v []int64
-			for _, s := range m[3:] {
-				x, err := strconv.ParseInt(s, 10, 64)
-				if err != nil {
-					x = 1 << 62 // does not fit: certainly beyond len
+	outs := ""
+	for _, q := range []struct{ pkg, module, wuffs, main string }{
+		{"quirkf", "QUIRKF", quirkForgetWuffs, quirkForgetMain},
+		{"quirkl", "QUIRKL", quirkLimitWuffs, quirkLimitMain},
+	} {
+		wf := filepath.Join(dir, q.pkg+".wuffs")
+		os.WriteFile(wf, []byte(q.wuffs), 0o644)
+		c, e, err := hlib.GenPkg(filepath.Join(binDir, "wuffs-c"), q.pkg, wf)
+		if err != nil {
+			// lang/check rejects leaving / re-entering an io block: nothing to run
+			r.Count("quirk:" + q.pkg + ":rejected-by-the-compiler")
+			r.Note(q.pkg + ".wuffs rejected by the working tree's compiler: " + firstLine(string(e)))
+			continue
+		}
+		r.Count("quirk:" + q.pkg + ":accepted-by-the-compiler")
+		gen := strings.Replace(string(c), "#include \"./wuffs-base.c\"", "", 1)
+		src := "#define WUFFS_IMPLEMENTATION\n#define WUFFS_CONFIG__MODULES\n#define WUFFS_CONFIG__MODULE__BASE__CORE\n#define WUFFS_CONFIG__MODULE__" + q.module + "\n" +
+			"#include \"" + snapshot + "\"\n" + gen + "\n" + quirkDriverHead + q.main
+		cfile := filepath.Join(dir, q.pkg+"_drv.c")
+		os.WriteFile(cfile, []byte(src), 0o644)
+		bin := filepath.Join(dir, q.pkg+"_drv")
+		if err := hlib.CC("gcc", "-O0", "-w", "-o", bin, cfile); err != nil {
+			r.Count("quirk:driver-does-not-compile")
+			r.Note("quirk driver " + q.pkg + ": " + firstLine(err.Error()))
+			continue
+		}
+		o, _, err := hlib.RunCmd(60*time.Second, dir, nil, nil, bin)
+		out := string(o)
+		outs += out
+		if err != nil {
+			r.Fail("iocontract:quirk:driver-crashed", "the quirk scenario "+q.pkg+" crashed: "+err.Error(),
+				"findings/C08/quirk.wuffs + findings/C08/quirk_driver.c (gcc -O0); output:\n"+out)
+			continue
+		}
+		r.Count("quirk:scenarios-run")
+		for _, l := range strings.Split(out, "\n") {
+			if m := reShow.FindStringSubmatch(strings.TrimSpace(l)); m != nil {
+				var v []int64
+				for _, s := range m[3:] {
+					x, err := strconv.ParseInt(s, 10, 64)
+					if err != nil {
+						x = 1 << 62 // does not fit: certainly beyond len
+					}
+					v = append(v, x)
 				}
-				v = append(v, x)
+				vals[m[1]] = v // ptr_off len ri wi pos
 			}
-			vals[m[1]] = v // ptr_off len ri wi pos
 		}
 	}
-	r.Extra("quirk_output", out)
-	r.Count("quirk:scenarios-run")
+	if outs == "" {
+		return
+	}
+	replay := "findings/C08/quirk.wuffs + findings/C08/quirk_driver.c (gcc -O0); output:\n" + outs
+	r.Extra("quirk_output", outs)
 	if b, a := vals["forget-before"], vals["forget-after"]; b != nil && a != nil {
 		if a[0] != b[0] || a[3] < b[3] || !(a[2] <= a[3] && a[3] <= a[1]) {
 			r.Fail("iocontract:quirk:return-inside-io_forget_history",
-				fmt.Sprintf("a `return` inside io_forget_history(args.dst) hands the caller's destination buffer back with data.ptr moved by %d, len %d→%d and wi %d→%d (write index moved backwards)", a[0]-b[0], b[1], a[1], b[3], a[3]), replay)
+				fmt.Sprintf("the compiler accepts a `return` inside io_forget_history(args.dst), and the generated code hands the caller's destination buffer back with data.ptr moved by %d, len %d→%d and wi %d→%d (write index moved backwards)", a[0]-b[0], b[1], a[1], b[3], a[3]), replay)
 		}
 	}
 	if b, a := vals["limit-before-resume"], vals["limit-after-resume"]; b != nil && a != nil {
 		if !(a[2] <= a[3] && a[3] <= a[1]) || a[2] < b[2] || a[0] != b[0] {
 			r.Fail("iocontract:quirk:suspension-inside-io_limit",
-				fmt.Sprintf("resuming a coroutine that suspended inside io_limit(args.src) jumps past the block's saved variables; the caller's source buffer comes back with ri=%d wi=%d len=%d (ri <= wi <= len broken)", a[2], a[3], a[1]), replay)
+				fmt.Sprintf("the compiler accepts a suspending call inside io_limit(args.src); resuming it jumps past the block's saved variables and the caller's source buffer comes back with ri=%d wi=%d len=%d (ri <= wi <= len broken)", a[2], a[3], a[1]), replay)
 		}
 	}
 }
